@@ -16,6 +16,9 @@ KINDS = {
  "r9": """  (1) A CHANGE OUTSIDE THE ANCHORED FILES: leave the files the property is anchored in untouched and change a helper they depend on in ANOTHER file or package of the library (a shared utility, an interface implementation, a constructor, a table, a method of a type they use) - something a maintainer working on that other file would commit without thinking of this property.  The anchored behaviour must break only through the dependency.
   (2) HOISTED OR SHARED SCRATCH STATE: a local buffer, table, counter or flag is hoisted to a struct field or a package-level variable (or two objects are made to share one) "to save allocations"; single objects used one call at a time behave exactly as before, and the property breaks only when two objects / two calls are interleaved, a result is kept while another call is made, or a call is re-entered.
   (3) A FIX THAT OVERSHOOTS: a well-meant correction or tightening - stricter validation, an extra normalisation, an "obviously missing" bounds check, rounding made consistent, an early return for a case that "cannot happen" - that changes or rejects a class of VALID inputs named in the quantifier while every input that looks typical keeps working.""",
+ "r10": """  (1) NUMERIC EDGE: an arithmetic expression is rewritten (a division moved, a subtraction reordered, an int narrowed to int32/uint, a rounding changed from round-half-up to truncation, a modulo of a possibly negative number, a midpoint computed as (a+b)/2) so that it is wrong only for particular magnitudes or signs the quantifier covers - never for small positive values.
+  (2) ORDER DEPENDENCE: an ordered structure is replaced by a map that is ranged over, a stable sort by an unstable one, a "first wins" by a "last wins", or a tie is broken differently - so that the result is wrong (or differs from run to run) only when two or more elements tie, collide or are equal in the key that is compared.
+  (3) A CUT-OFF AT AN ORDINARY NUMBER: a fast path, a chunk size, a pre-sized buffer or a "small input" special case keyed on a constant that is NOT a power of two, not a power of ten and not one off either (12, 20, 50, 75, 96, 120, 300, 750, 1200, 1500 ...), wrong exactly at or just beyond that size and right below it.""",
  "r7": """  (1) EDGE OF THE VALUE DOMAIN: wrong only for an extreme or degenerate value the quantifier covers - the largest / smallest representable number, zero length, an empty collection, all elements equal, duplicates, an all-gap or all-invalid input, the last valid code of a table - and right for every ordinary value.  (Not a size threshold: a value.)
   (2) TWO FEATURES THAT MEET: two options, modes or operations each of which works alone and which are wrong only in combination (this flag AND that mode; this operation directly after that one on the same object; both ends at once) - the change sits where the two code paths meet.
   (3) LIFETIME: something lives too long or not long enough - a result that aliases an internal buffer which a LATER call reuses, a goroutine / file / channel left behind on a rare path, a resource released while a result still refers to it, state of a finished (closed, cleaned-up, drained) object that a following legal call trips over.""",
